@@ -1,0 +1,15 @@
+//go:build verif
+
+package stub
+
+import "sync/atomic"
+
+// VerifHook, when set, is called at named points to let a verification harness widen race
+// windows. It only exists in builds with the "verif" tag.
+var VerifHook atomic.Pointer[func(string)]
+
+func verifHook(point string) {
+	if f := VerifHook.Load(); f != nil {
+		(*f)(point)
+	}
+}
